@@ -95,6 +95,23 @@ Theorem C16_clear_empties : forall d d' es r, l_clear gen_sig_tables d = LOk d' 
 Proof. exact (clear_spec gen_sig_tables). Qed.
 Print Assumptions C16_clear_empties.
 
+(* every one of the 13 mutators computes the corresponding Coq list function (None = raises, nothing changes):
+   append d++[v]; insert at the clamped index; setitem / delitem at the normalised index; slice assignment
+   (step 1: splice, extended: position-wise, sizes must agree) and slice deletion by slice.indices;
+   pop() = removelast returning last; pop(i); remove = first occurrence; extend / extend(self) / += = ++;
+   reverse = rev; clear = [] *)
+Theorem C16_list_op_spec : forall tb d o,
+  match list_op tb d o with
+  | LOk d' _ r => list_op_result d o = Some d' /\ r = list_op_ret d o
+  | LErr _ => list_op_result d o = None
+  end.
+Proof. exact list_op_spec. Qed.
+Print Assumptions C16_list_op_spec.
+
+Theorem C16_reverse_reverses : forall tb d d' es r, l_reverse tb d = LOk d' es r -> d' = rev d.
+Proof. exact reverse_spec. Qed.
+Print Assumptions C16_reverse_reverses.
+
 (* after unobserve(nm, ty, h) - from any state that agrees with a ledger, i.e. after any history - h receives
    no signal of any (name, type) the call names, as long as h is not subscribed to instance i again *)
 Theorem C16_unobserve_silences : forall slots_of st L,
@@ -204,3 +221,14 @@ Example C18_example_raises :
   (exists e, snd (step gen_sig_tables st (ListOp 0 1 (LSetSlice None None (Some 2) [1]))) = (Raised e, VNone, [])) /\
   (exists e, snd (step gen_sig_tables st (Unobserve 0 (TName 9) SAll 1)) = (Raised e, VNone, [])).
 Proof. vm_compute. repeat split; eexists; reflexivity. Qed.
+(* list_op_result is not vacuous: concrete values, incl. clamped insert, negative-step slice, pop default *)
+Example C16_example_list_spec :
+  list_op_result [1; 2; 3] (LInsert (-9) 7) = Some [7; 1; 2; 3] /\
+  list_op_result [1; 2; 3] (LInsert 9 7) = Some [1; 2; 3; 7] /\
+  list_op_result [0; 1; 2; 3; 4] (LDelSlice (Some 3) None (Some (-2))) = Some [0; 2; 4] /\
+  list_op_result [0; 1; 2; 3; 4] (LSetSlice (Some 1) (Some 3) None [9]) = Some [0; 9; 3; 4] /\
+  list_op_result [0; 1; 2] (LSetSlice None None (Some 2) [9]) = None /\
+  list_op_result [5; 6; 5] (LRemove 5) = Some [6; 5] /\ list_op_result [5; 6] (LRemove 7) = None /\
+  list_op_result [5; 6] (LPop None) = Some [5] /\ list_op_ret [5; 6] (LPop None) = VInt 6 /\
+  list_op_result [] (LPop None) = None /\ list_op_result [1; 2; 3] LReverse = Some [3; 2; 1].
+Proof. vm_compute. repeat split; reflexivity. Qed.
